@@ -1,6 +1,7 @@
 package sim
 
 import (
+	encjson "encoding/json"
 	"errors"
 	"fmt"
 	"sort"
@@ -34,6 +35,8 @@ type API interface {
 	ErrClass(err error) string
 	Supports(fn int) bool
 	Reset()
+	// CorruptPatch returns a hand-assembled copy of p with its k-th raw message damaged.
+	CorruptPatch(p any, k int) any
 	// SetDefaults assigns the package-level defaults (done between runs only, never while calls are in flight).
 	SetDefaults(limit int64, negOff bool)
 }
@@ -47,6 +50,60 @@ func (v5API) Supports(fn int) bool { return true }
 func (v5API) Reset() {
 	v5.SimReset()
 	v5json.SimReset()
+}
+
+func damage(raw []byte, k int) *[]byte {
+	switch k % 4 {
+	case 0:
+		return nil
+	case 1:
+		b := append([]byte(nil), raw[:len(raw)/2]...)
+		return &b
+	case 2:
+		b := []byte{}
+		return &b
+	}
+	b := append([]byte("["), raw...)
+	return &b
+}
+
+func (v5API) CorruptPatch(p any, k int) any {
+	pp, _ := p.(v5.Patch)
+	out := make(v5.Patch, len(pp))
+	n := 0
+	for i, op := range pp {
+		keys := make([]string, 0, len(op))
+		for key := range op {
+			keys = append(keys, key)
+		}
+		sort.Strings(keys)
+		cp := v5.Operation{}
+		for _, key := range keys {
+			v := op[key]
+			n++
+			if n == 1+(k/4)%16 || (n == 1 && len(pp) == 1 && len(keys) == 1) {
+				var raw []byte
+				if v != nil {
+					raw = *v
+				}
+				if d := damage(raw, k); d == nil {
+					cp[key] = nil
+				} else {
+					rm := v5json.RawMessage(*d)
+					cp[key] = &rm
+				}
+				continue
+			}
+			if v != nil {
+				rm := append(v5json.RawMessage(nil), *v...)
+				cp[key] = &rm
+			} else {
+				cp[key] = nil
+			}
+		}
+		out[i] = cp
+	}
+	return out
 }
 
 func (v5API) SetDefaults(limit int64, negOff bool) {
@@ -198,6 +255,45 @@ func (legacyAPI) Supports(fn int) bool {
 	return fn != FnApplyWithOptions && fn != FnApplyIndentWithOptions
 }
 func (legacyAPI) Reset() { legacy.SimReset() }
+
+func (legacyAPI) CorruptPatch(p any, k int) any {
+	pp, _ := p.(legacy.Patch)
+	out := make(legacy.Patch, len(pp))
+	n := 0
+	for i, op := range pp {
+		keys := make([]string, 0, len(op))
+		for key := range op {
+			keys = append(keys, key)
+		}
+		sort.Strings(keys)
+		cp := legacy.Operation{}
+		for _, key := range keys {
+			v := op[key]
+			n++
+			if n == 1+(k/4)%16 {
+				var raw []byte
+				if v != nil {
+					raw = *v
+				}
+				if d := damage(raw, k); d == nil {
+					cp[key] = nil
+				} else {
+					rm := encjson.RawMessage(*d)
+					cp[key] = &rm
+				}
+				continue
+			}
+			if v != nil {
+				rm := append(encjson.RawMessage(nil), *v...)
+				cp[key] = &rm
+			} else {
+				cp[key] = nil
+			}
+		}
+		out[i] = cp
+	}
+	return out
+}
 
 func (legacyAPI) SetDefaults(limit int64, negOff bool) {
 	legacy.AccumulatedCopySizeLimit = limit
